@@ -120,8 +120,12 @@ func Minify(inputs []InputFile, cfg *Config) (*Result, error) {
 	}
 
 	perFile, pkgExports := scanInputSymbols(files, cfg)
+	paths := make([]string, 0, len(files))
 	for i := range files {
-		fileCfg := mergeAnalysisConfig(cfg.Analysis, files[i].path, perFile, pkgExports)
+		paths = append(paths, files[i].path)
+	}
+	for i := range files {
+		fileCfg := mergeAnalysisConfig(cfg.Analysis, files[i].path, paths, perFile, pkgExports)
 		files[i].analysis = analysis.Analyze(files[i].exprs, fileCfg)
 	}
 
@@ -212,7 +216,12 @@ func parseFile(input InputFile) (parsedFile, error) {
 	}, nil
 }
 
-func mergeAnalysisConfig(base *analysis.Config, filename string, perFile map[string]fileSymbols, pkgExports map[string][]analysis.ExternalSymbol) *analysis.Config {
+// mergeAnalysisConfig builds the analysis configuration for one file of the
+// session.  paths lists the session's files in input order: the globals of
+// the other files are added in that order (never in map order), because the
+// analyzer resolves a name defined more than once to the last definition it
+// was given and the chosen definition decides what gets renamed.
+func mergeAnalysisConfig(base *analysis.Config, filename string, paths []string, perFile map[string]fileSymbols, pkgExports map[string][]analysis.ExternalSymbol) *analysis.Config {
 	cfg := &analysis.Config{Filename: filename}
 	if base != nil {
 		cfg.ExtraGlobals = append(cfg.ExtraGlobals, base.ExtraGlobals...)
@@ -229,10 +238,13 @@ func mergeAnalysisConfig(base *analysis.Config, filename string, perFile map[str
 	if symbols, ok := perFile[filename]; ok && len(symbols.packages) > 0 {
 		currentPackages = symbols.packages
 	}
-	for path, symbols := range perFile {
-		if path == filename {
+	seen := make(map[string]bool, len(paths))
+	for _, path := range paths {
+		if path == filename || seen[path] {
 			continue
 		}
+		seen[path] = true
+		symbols := perFile[path]
 		for _, sym := range symbols.globals {
 			if currentPackages[sym.Package] {
 				cfg.ExtraGlobals = append(cfg.ExtraGlobals, sym)
@@ -316,9 +328,17 @@ func scanProgramSymbols(exprs []*lisp.LVal, cfg *Config) ([]analysis.ExternalSym
 		}
 	}
 
+	// Emit in sorted key order: the order of globals reaches the analyzer's
+	// name resolution, so it must not depend on map iteration.
+	keys := make([]string, 0, len(defs))
+	for key := range defs {
+		keys = append(keys, key)
+	}
+	sort.Strings(keys)
 	globals := make([]analysis.ExternalSymbol, 0, len(defs))
 	pkgExports := make(map[string][]analysis.ExternalSymbol)
-	for key, sym := range defs {
+	for _, key := range keys {
+		sym := defs[key]
 		globals = append(globals, sym)
 		pkg, name, _ := strings.Cut(key, "/")
 		if exported[pkg][name] {
